@@ -128,8 +128,8 @@ def oracle(ctx: Ctx, res) -> None:
 
 
 def run(ctx: Ctx) -> None:
-    n = 150 if ctx.quick else 4000
-    good = oc.crawl_and_compare(ctx, n, 2)
+    n = 400 if ctx.quick else 5000
+    good = oc.crawl_and_compare(ctx, n, 2 if ctx.quick else 3)
     for res in good:
         t = res["truth"]
         nt = nontrivial(res)
